@@ -34,27 +34,32 @@ def uni2tex(text):
         0x030C: "v",
     }
     out = ""
-    txt = tuple(text)
     i = 0
-    while i < len(txt):
+    while i < len(text):
         char = text[i]
-        code = ord(char)
+        nxt = text[i + 1] if i + 1 < len(text) else None
 
-        # combining marks
-        if unicodedata.category(char) in ("Mn", "Mc") and code in accents:
-            out += "\\%s{%s}" % (accents[code], txt[i + 1])
-            i += 1
-        # precomposed characters
-        elif unicodedata.decomposition(char):
-            base, acc = unicodedata.decomposition(char).split()
-            acc = int(acc, 16)
-            base = int(base, 16)
+        # a character followed by a combining accent: the accent belongs to
+        # the character before it
+        if (
+            nxt is not None
+            and ord(nxt) in accents
+            and unicodedata.category(nxt) in ("Mn", "Mc")
+            and unicodedata.category(char) not in ("Mn", "Mc")
+        ):
+            out += "\\%s{%s}" % (accents[ord(nxt)], char)
+            i += 2
+            continue
+
+        # precomposed characters (canonical two-part decompositions only)
+        parts = unicodedata.decomposition(char).split()
+        if len(parts) == 2 and not parts[0].startswith("<"):
+            base, acc = int(parts[0], 16), int(parts[1], 16)
             if acc in accents:
                 out += "\\%s{%s}" % (accents[acc], chr(base))
-            else:
-                out += char
-        else:
-            out += char
+                i += 1
+                continue
+        out += char
         i += 1
     return out
 
